@@ -155,9 +155,6 @@ pub fn incoherent_reasons(boot: &[u8]) -> Vec<String> {
         ));
     }
     if g.width == 32 && g.layout32 {
-        if g.clusters > 0x0FFF_FFF5 {
-            r.push("too many clusters for FAT32".into());
-        }
         if (g.root_cluster as u64) < 2 || (g.root_cluster as u64) > g.clusters + 1 {
             r.push(format!("FAT32 root cluster {} out of range 2..={}", g.root_cluster, g.clusters + 1));
         }
